@@ -279,6 +279,51 @@ CONFIG = [
                 'self.results_manager.results_collection.add': 'coll_add',
                 'time.sleep': 'sleep'},
       'cells': {"self.stats['results']": 'stats_results'}}),
+    ('apply_to_file', 'searchkit/constraints.py',
+     'SearchConstraintSearchSince.apply_to_file',
+     {'locks': {},
+      'calls': {'seeker.run': 'seeker_run', 'fd.seek': 'fd_seek',
+                'fd.tell': 'fd_tell',
+                'LogFileDateSinceSeeker': 'seeker_new'},
+      'cells': {'self._results': 'offset_cache'}}),
+    ('extracted_datetime', 'searchkit/constraints.py',
+     'SearchConstraintSearchSince.extracted_datetime',
+     {'locks': {}, 'cells': {'timestamp.strptime': 'strptime'},
+      'calls': {'line.decode': 'decode_window',
+                'self.ts_matcher_cls': 'ts_match'}}),
+    ('seeker_run', 'searchkit/constraints.py', 'LogFileDateSinceSeeker.run',
+     {'locks': {}, 'calls': {'bisect.bisect_left': 'bisect_left',
+                             'self.try_find_line_with_date': 'tfld'}}),
+    ('seeker_getitem', 'searchkit/constraints.py',
+     'LogFileDateSinceSeeker.__getitem__',
+     {'locks': {}, 'calls': {'self.try_find_line_with_date': 'tfld'}}),
+    ('find_token', 'searchkit/constraints.py',
+     'LogFileDateSinceSeeker.find_token',
+     {'locks': {}, 'calls': {'self.file.read': 'read',
+                             'self.file.seek': 'seek'}}),
+    ('find_token_reverse', 'searchkit/constraints.py',
+     'LogFileDateSinceSeeker.find_token_reverse',
+     {'locks': {}, 'calls': {'self.file.read': 'read',
+                             'self.file.seek': 'seek'}}),
+    ('run_search', 'searchkit/task.py', 'SearchTask._run_search',
+     {'locks': {},
+      'calls': {'self.stats.reset': 'stats_reset',
+                'self.constraints_manager.apply_global': 'apply_global',
+                'self.constraints_manager.apply_single': 'apply_single',
+                'line.decode': 'decode_line',
+                'self._sequence_search': 'sequence_search',
+                'self._simple_search': 'simple_search',
+                'self._process_sequence_results': 'process_sequences',
+                's_def.reset': 'seq_reset', 'enumerate': 'enumerate_lines'},
+      'cells': {"self.stats['lines_searched']": 'lines_searched'}}),
+    ('run_single', 'searchkit/search.py', 'FileSearcher._run_single',
+     {'locks': {},
+      'calls': {'self.stats.update': 'stats_update',
+                'task.execute': 'task_execute'},
+      'cells': {"self.stats['jobs_completed']": 'jobs_completed',
+                "self.stats['total_jobs']": 'total_jobs'}}),
+    ('stats_update', 'searchkit/task.py', 'SearchTaskStats.update',
+     {'locks': {}, 'cells': {'self.data[key]': 'stat_slot'}}),
 ]
 
 ARG0 = {'Acq', 'Rel', 'Rd', 'Wr', 'Call', 'Handler', 'RaiseE'}
